@@ -1,9 +1,98 @@
 """C13 - the outbound byte stream is always a valid, uninterleaved frame sequence."""
-import brokercheck, monitors
+import random, re
+import brokercheck, brokerlib, monitors, vlib
+
+# frame-max values the receivers of the re-cut correspondence negotiate (connection -> frame-max; 0 = no limit of its
+# own); the publisher (connection 1) keeps the server's 65536
+RECEIVERS = {2: 4096, 3: 5000, 4: 0, 5: 65536, 6: 4097}
+CORNERS = [1, 2, 4087, 4088, 4089, 4090, 4991, 4992, 4993, 8175, 8176, 8177, 9984, 9985, 12264, 12265, 20000, 40000, 60000, 65528]
+
+
+def reframe_session(seed, n):
+    rnd = random.Random(seed * 7919 + 13)
+    ops = ["OPEN 1", "CH 1 1"]
+    for c, fm in RECEIVERS.items():
+        ops += ["ACCEPT %d" % c, "STARTOK %d 1 PLAIN guest guest 0" % c, "TUNEOK %d 1 2047 %d" % (c, fm), "COPEN %d 1 /" % c,
+                "CH %d 1" % c, "QD %d 1 qf%d 0 0 0 0 0" % (c, c), "QB %d 1 qf%d amq.fanout - - 0" % (c, c)]
+        if c != 6:
+            ops.append("CONS %d 1 qf%d t%d 1 0 0" % (c, c, c))
+    stored = {}
+    for uid in range(1, n + 1):
+        k = rnd.choice([1, 1, 2, 3])
+        sizes = [rnd.choice(CORNERS) if rnd.random() < 0.7 else rnd.randint(1, 65528) for _ in range(k)]
+        stored[uid] = sizes
+        ops.append("PUB 1 1 amq.fanout - 0 0 0 %d %s" % (uid, "+".join(map(str, sizes))))
+        ops.append("GET 6 1 qf6 1")        # connection 6 takes its copy with basic.get (get-ok is a content block too)
+    # a return to a connection with a small frame-max: the body it published comes back (it fits by construction)
+    return ops, stored
+
+
+def reframe_correspondence(res):
+    """Run Data/Reframe.v's `reframe` and the real broker on the same stored frames and receivers; compare the body
+    frame sizes of every content block."""
+    exe, err = vlib.build_harness("broker")
+    if exe is None:
+        raise vlib.Infra("harness does not build: " + err)
+    n = 12 if res.tier == "quick" else 80
+    ops, stored = reframe_session(res.seed, n)
+    cfg = {"rabbit": True, "engine": "buntdb", "auth": "plain"}
+    o, e = brokerlib.replay_script(exe, cfg, ops)
+    if o is None:
+        res.violation(dict(kind="broker-crash", cfg=cfg, ops=ops, observation=e[-600:]), True, "the broker died during the re-cut session: " + e[-200:])
+        return
+    blocks = {}     # (conn, uid) -> [body sizes], in arrival order
+    for st in o["steps"]:
+        for f in st["frames"]:
+            m = re.match(r"(\d+)\.\d+:body\((\d+),(\d+)\)", f)
+            if m:
+                blocks.setdefault((int(m.group(1)), int(m.group(2))), []).append(int(m.group(3)))
+            m = re.match(r"(\d+)\.\d+:header\((\d+),", f)
+            if m:
+                blocks.setdefault((int(m.group(1)), int(m.group(2))), [])
+    cases = []
+    for (c, uid), obs in sorted(blocks.items()):
+        if c in RECEIVERS and uid in stored:
+            cases.append((c, uid, RECEIVERS[c], stored[uid], obs))
+    missing = [(c, uid) for c in RECEIVERS for uid in stored if (c, uid) not in blocks]
+    if missing:
+        res.violation(dict(kind="correspondence", cfg=cfg, ops=ops, observation="no content block for (connection, message) %s" % missing[:5]),
+                      True, "re-cut session: receivers got no content block for %d (connection, message) pairs, e.g. %s" % (len(missing), missing[:3]))
+        return
+    lst = lambda xs: "[" + "; ".join(str(x) for x in xs) + "]"
+    text = ("From Coq Require Import List NArith Bool.\nImport ListNotations.\nFrom GMQ Require Import Data.Reframe.\nOpen Scope N_scope.\n"
+            "Definition eqb_l (a b : list N) : bool := if list_eq_dec N.eq_dec a b then true else false.\n"
+            "Definition cases : list (N * (N * (list N * list N))) := [\n  "
+            + ";\n  ".join("(%d, (%d, (%s, %s)))" % (i, fm, lst(st), lst(ob)) for i, (c, uid, fm, st, ob) in enumerate(cases))
+            + "].\nDefinition bad := Eval vm_compute in map fst (filter (fun c => negb (eqb_l (reframe (fst (snd c)) (fst (snd (snd c)))) (snd (snd (snd c))))) cases).\nPrint bad.\n"
+            "Definition wide := Eval vm_compute in map fst (filter (fun c => existsb (fun n => (0 <? fst (snd c)) && (fst (snd c) <? wire_size n)) (snd (snd (snd c)))) cases).\nPrint wide.\n")
+    out = vlib.coq_eval("reframe", text)
+    bad = [int(x.replace("%N", "")) for x in vlib.parse_coq_list(out, "bad")]
+    wide = [int(x.replace("%N", "")) for x in vlib.parse_coq_list(out, "wide")]
+    cut = sum(1 for (_, _, _, st, ob) in cases if st != ob)
+    res.cov["reframe_correspondence"] = {"content_blocks_compared": len(cases), "blocks_actually_recut": cut, "receivers_frame_max": RECEIVERS,
+                                         "stored_frame_sizes": sorted({s for v in stored.values() for s in v})[:40], "disagreements": len(bad)}
+    res.cov["evaluations"] = res.cov.get("evaluations", 0) + len(cases)
+    res.cov["traces_validated_against_impl"] = res.cov.get("traces_validated_against_impl", 0) + len(cases)
+    for i in wide[:1]:
+        c, uid, fm, st, ob = cases[i]
+        k = ops.index([x for x in ops if x.startswith("PUB 1 1 amq.fanout - 0 0 0 %d " % uid)][0])
+        res.violation(dict(kind="session", cfg=cfg, ops=ops[:k + 2], observation="connection %d (frame-max %d) received body frames %s for message %d" % (c, fm, ob, uid)),
+                      True, "C13: connection %d negotiated frame-max %d and received a body frame of %d bytes (%d on the wire) for message %d stored as %s" % (c, fm, max(ob), max(ob) + 8, uid, st))
+        return
+    for i in bad[:1]:
+        c, uid, fm, st, ob = cases[i]
+        k = ops.index([x for x in ops if x.startswith("PUB 1 1 amq.fanout - 0 0 0 %d " % uid)][0])
+        res.violation(dict(kind="correspondence", cfg=cfg, ops=ops[:k + 2], broken="correspondence Data/Reframe.v reframe / SendContent",
+                           observation="connection %d (frame-max %d), message %d stored as %s: broker sent %s" % (c, fm, uid, st, ob),
+                           note="every frame is within the receiver's frame-max; the cutting differs from the model's"),
+                      False, "re-cut correspondence: model and implementation cut message %d (stored %s) differently for frame-max %d: broker %s" % (uid, st, fm, ob))
+        return
 
 
 def run(res):
-    brokercheck.run(res, "C13", "Props/C13.v", monitors.monitor_c13)
+    brokercheck.run(res, "C13", ["Props/C13.v", "Props/C13_reframe.v"], monitors.monitor_c13)
+    if not res.violations:
+        reframe_correspondence(res)
 
 
 def replay(path):
